@@ -2,39 +2,64 @@
 
 Mechanism: breezy/merge.py: Merge3Merger.text_merge (sentinel start marker,
 `iter_merge3` flag + replace), _do_merge_contents/merge_contents in front of it,
-_dump_conflicts/_conflict_file (helper files), breezy/bzr/conflicts.py
+_merge_names (final name / directory of the file), _dump_conflicts/_conflict_file
+(helper files `<final name>.BASE/.THIS/.OTHER` in the final directory),
+cook_conflicts (record under the final path), breezy/bzr/conflicts.py
 TextConflict._resolve / ContentsConflict._resolve + breezy/conflicts.py
-resolve()/cleanup.
+resolve()/cleanup (resolution works by the recorded PATH).
 
 T1: the byte constants of text_merge (sentinel, `<`*7, `|`*7, TREE,
-    MERGE-SOURCE, BASE-REVISION) are read from the source (ast) into
-    Generated/C19.lean; Props/C19T1.lean proves them equal to the model's.
+    MERGE-SOURCE, BASE-REVISION), the helper suffix words of _dump_conflicts +
+    the `"."` of _conflict_file and CONFLICT_SUFFIXES of bzr/conflicts.py and
+    git/workingtree.py are read from the source (ast) into Generated/C19.lean;
+    Props/C19T1.lean proves them equal to the model's.
 T2: scenarios = (format 2a|git, options reprocess/show-base/cherrypick, front
-    end Merger.from_revision_ids | Merge3Merger directly, N files); each file is
-    a generated (BASE, THIS, OTHER) text triple.  The real merge runs on real
-    working trees; per file the observed slot (file bytes, .BASE/.THIS/.OTHER
-    bytes, conflict record kind, which name is versioned) is compared with the
-    Lean model `mergeFile` fed with the regions computed by the external merge3
+    end Merger.from_revision_ids | Merge3Merger directly, optionally one side
+    renames a directory, N entries); each entry is a generated (BASE, THIS, OTHER)
+    text triple TOGETHER WITH a (BASE, THIS, OTHER) location triple
+    (directory, name): the file may be renamed and / or moved by THIS, by OTHER,
+    by both to the same place, by both differently (path conflict), or be absent
+    from BASE (added by both sides: same file id in bzr, same path in git).
+    The real merge runs on real working trees; per entry EVERYTHING it owns in
+    the tree (all files with their paths, the content-level conflict record
+    with its path, the versioned name, the path-conflict flag) is compared with
+    the Lean model `mergeEntry` (`pl`), the classical slot at the final path with
+    `mergeFile` (`mf`), fed with the regions computed by the external merge3
     package (resolved to lines); then every conflict is resolved with
-    take_this / take_other through breezy.conflicts.resolve (sometimes after
-    deleting or editing a helper = malformed stream) and the slot afterwards is
-    compared with `resolveText` / `resolveContents`.  Also compared:
-    osutils.split_lines vs `splitLines`, the start marker (`freshMarker`) and
-    the theorems' hypothesis `FromInputs` on every case.
+    take_this / take_other through breezy.conflicts.resolve BY THE RECORDED PATH
+    (sometimes after deleting or editing a helper = malformed stream) and the
+    entry afterwards is compared with `resolvePlaced` (`rp`) and the slot with
+    `resolveText` / `resolveContents`.  Also compared: osutils.split_lines vs
+    `splitLines`, the start marker (`freshMarker`) and the theorems' hypothesis
+    `FromInputs` on every case.  Directory identity = file id of the directory
+    (bzr) / its path (git), so a directory rename on one side does not matter.
 Oracle (model-independent): record present <=> merge3 reports a conflict
-    region (and both sides changed differently); file == conventional marker
-    rendering of the regions / == clean merge; helpers == the three texts
-    exactly / absent; after take_this/take_other: file == THIS/OTHER text,
-    helpers and record gone, file versioned.
+    region (and both sides changed differently); record path == final path of
+    the file (name and directory merged independently); file == conventional
+    marker rendering of the regions / == clean merge; helpers at
+    `<final path>.BASE/.THIS/.OTHER` == the three texts exactly (no .BASE when the
+    file is not in BASE) / absent; the entry owns no file under any other name
+    and the tree holds no unexpected file; after take_this/take_other: exactly
+    one file, at the final path, == THIS/OTHER text, helpers and record gone,
+    file versioned.  When the same entry also has a path conflict the same
+    resolve call settles it too and may move the file: then only content,
+    helpers and record are judged, not the place.
 Run-time-checked assumption on merge3: the regions reproduce THIS and OTHER
     (projections), and the text-level laws hold.
 
 History: two defects found by this check were repaired in /repo (fix: commits
 40e57db sentinel collision, b2b6407 contents-conflict take-this); the model
-follows the repaired code, no known-finding family is left: any oracle failure
-is a plain VIOLATION.  "Fix reverted" mutants: reverting either commit gives a
-VIOLATION with a concrete input (sentinel line in a clean merge; binary
+follows the repaired code.  "Fix reverted" mutants: reverting either commit
+gives a VIOLATION with a concrete input (sentinel line in a clean merge; binary
 both-sides take_this).
+Open finding (family `git-added-by-both-other-side-detected-as-copy`): in a git
+tree a file added by both sides whose OTHER version the tree comparison reports
+as a *copy* of another file (similarity detection; OTHER also modified that
+file) is merged as a plain add — `_compute_transform` drops the THIS slot —
+so THIS's committed text is overwritten by OTHER's, without any conflict.
+Classifier: fmt git, entry absent from BASE, OTHER's path in
+`other_tree.iter_changes(base_tree)` with copied=True.  Any other oracle failure
+is a plain VIOLATION.
 
 Mutants this was built against (scratch worktrees, all caught with a concrete
 input): (1) `startswith(start_marker)` -> `start_marker in line`; (2) flag set
@@ -48,8 +73,19 @@ always None (show_base ignored); (9) `if retval["text_conflicts"] is True` ->
 (10) the marker-extension loop removed (= fix reverted); (11) `+= b"!"` only once
 (`if` instead of `while`: needs a line starting with the once-extended marker);
 (12) ContentsConflict hand-over removed (= fix reverted).
+Placement mutants (need a rename / move / sub-directory / absent BASE to show):
+(13) text_merge names the helpers after THIS's basename instead of
+tt.final_name (needs OTHER renaming + conflicting edits; resolve then fails);
+(14) helpers put into tt.get_tree_parent instead of final_parent (needs OTHER
+moving the file); (15) contents-conflict helpers named after OTHER's basename
+(needs THIS renaming a binary file); (16) TextConflict._resolve looks up the
+winner helper by basename (needs a file in a sub-directory); (17) winner_idx
+"conflict" -> THIS (needs both sides renaming differently); (18) _dump_conflicts
+writes an empty .BASE for a file added by both sides; (19) associated_filenames
+by basename (cleanup leaves helpers in sub-directories).
 Harmless rewrite kept clean: iter_merge3 building a list instead of yielding;
-sentinel split differently (`b"!START OF MERGE " + b"CONFLICT!I HOPE THIS IS UNIQUE"`).
+sentinel split differently (`b"!START OF MERGE " + b"CONFLICT!I HOPE THIS IS UNIQUE"`);
+final name / parent looked up before create_file.
 """
 import ast
 import os
@@ -62,20 +98,27 @@ THEOREMS = [
     "marker_fresh", "render_append", "render_content_plain", "render_content_show_base", "sentinel_line_clean",
     "join_splitLines", "helpers_exact", "merge_file_spec", "resolve_text", "resolve_take_this",
     "resolve_take_other", "merge_then_resolve", "resolve_contents_take_other",
-    "resolve_contents_take_this",
+    "resolve_contents_take_this", "markers_written_iff",
+    "merge_loc_other_moved", "merge_loc_this_moved", "merge_loc_same_move", "merge_loc_components",
+    "entry_text_conflict_placed", "entry_clean_placed", "entry_merge_then_resolve", "entry_contents_then_resolve",
+    "merge_loc_added", "helpers_exact_opt", "entry_content_is_merge_file", "entry_added_no_base_helper",
 ]
-T1_THEOREMS = ["sentinel_gen_eq", "replacement_gen_eq", "extension_gen_eq", "base_marker_gen_eq", "names_gen_eq"]
-RULE = ("scenario = (format, reprocess, show_base, cherrypick, front end); case = one file = (BASE, THIS, OTHER) "
-        "texts over an alphabet with marker look-alikes, the sentinel, CR/CRLF endings, missing final newline, NUL; "
-        "plus one resolve step per recorded conflict; non-trivial = both sides changed the text differently "
-        "(text_merge / contents conflict path actually taken); distinct by (options, triple, action)")
+T1_THEOREMS = ["sentinel_gen_eq", "replacement_gen_eq", "extension_gen_eq", "base_marker_gen_eq", "names_gen_eq",
+               "helper_suffixes_gen_eq", "cleanup_suffixes_gen_eq", "cleanup_suffixes_git_gen_eq"]
+RULE = ("scenario = (format, reprocess, show_base, cherrypick, front end, optional directory rename); case = one file = "
+        "(BASE, THIS, OTHER) texts over an alphabet with marker look-alikes, the sentinel, CR/CRLF endings, missing "
+        "final newline, NUL, x (BASE, THIS, OTHER) locations (directory, name): fixed, renamed / moved by THIS, by OTHER, "
+        "by both alike, by both differently (path conflict), absent from BASE (added by both sides); plus one resolve "
+        "step (by the recorded path) per recorded conflict; non-trivial = both sides changed the text differently "
+        "(text_merge / contents conflict path actually taken); distinct by (options, triple, locations, action)")
 ASSUMPTIONS = [
     "merge3.Merge3.merge_regions / reprocess_merge_regions (external) produce regions that reproduce THIS and OTHER "
     "(checked on every case by projection) ; their conflict regions define 'has conflicting regions'",
-    "texts are shorter than the 1024-byte window of check_text_lines (binary <=> contains NUL)",
 ]
 TRUSTED = ["merge3 region computation and patiencediff (external) are inputs of the model, not verified",
-           "tree transform apply / rename machinery is covered by C13/C14, here only its observable result"]
+           "tree transform apply / rename machinery is covered by C13/C14, here only its observable result",
+           "directories are opaque identities in the model (file id of the directory); how a directory's own rename is "
+           "merged, and how a path conflict on the same entry is resolved, belong to other properties"]
 
 SENT = b"!START OF MERGE CONFLICT!I HOPE THIS IS UNIQUE"
 
@@ -120,6 +163,40 @@ def extract(ctx):
     need = ("start_marker", "base_marker", "name_a", "name_b", "name_base", "replacement", "extension")
     if any(k not in vals or not isinstance(vals[k], bytes) for k in need):
         raise ex.ExtractError("text_merge constants not found: %r" % sorted(vals))
+    # helper-file names: `_dump_conflicts` (suffix words), `_conflict_file` (name + "." + suffix) and the
+    # suffixes resolution / cleanup looks for (bzr and git CONFLICT_SUFFIXES)
+    words = []
+    fd = ex.find_func(os.path.join(env.REPO, "breezy/merge.py"), "Merge3Merger._dump_conflicts")
+    for n in ast.walk(fd):
+        if isinstance(n, ast.Tuple) and len(n.elts) == 4 and isinstance(n.elts[0], ast.Constant) \
+                and isinstance(n.elts[0].value, str):
+            words.append((n.lineno, n.elts[0].value))
+    words = [w for _, w in sorted(words)]
+    sep = None
+    fc = ex.find_func(os.path.join(env.REPO, "breezy/merge.py"), "Merge3Merger._conflict_file")
+    for n in ast.walk(fc):
+        if isinstance(n, ast.Assign) and len(n.targets) == 1 and isinstance(n.targets[0], ast.Name) \
+                and n.targets[0].id == "name" and isinstance(n.value, ast.BinOp):
+            v = n.value       # (name + ".") + suffix
+            if isinstance(v.left, ast.BinOp) and isinstance(v.left.left, ast.Name) and v.left.left.id == "name" \
+                    and isinstance(v.left.right, ast.Constant) and isinstance(v.right, ast.Name) and v.right.id == "suffix":
+                sep = v.left.right.value
+    if sorted(words) != ["BASE", "OTHER", "THIS"] or not isinstance(sep, str):
+        raise ex.ExtractError("helper suffixes not found: %r %r" % (words, sep))
+
+    def suffixes(path):
+        v = ex.find_assign(os.path.join(env.REPO, path), "CONFLICT_SUFFIXES")
+        if not isinstance(v, (ast.Tuple, ast.List)) or not all(isinstance(e, ast.Constant) and isinstance(e.value, str) for e in v.elts):
+            raise ex.ExtractError("CONFLICT_SUFFIXES not a literal in %s" % path)
+        return [e.value.encode() for e in v.elts]
+
+    def lean_list(bs):
+        return "[" + ", ".join(ex.lean_bytes(b) for b in bs) + "]"
+    sfx_text = ("def helperSuffixesGen : List Bytes := %s\n"
+                "def cleanupSuffixesGen : List Bytes := %s\n"
+                "def cleanupSuffixesGitGen : List Bytes := %s\n") % (
+        lean_list([(sep + w).encode() for w in words]), lean_list(suffixes("breezy/bzr/conflicts.py")),
+        lean_list(suffixes("breezy/git/workingtree.py")))
     text = ("-- GENERATED by harness/checks/c19.py from breezy/merge.py (Merge3Merger.text_merge) — do not edit\n"
             "import BreezyVerif.Model.C19\nnamespace BreezyVerif.C19\n"
             "def sentinelGen : Bytes := %s\n"
@@ -129,8 +206,10 @@ def extract(ctx):
             "def nameAGen : Bytes := %s\n"
             "def nameBGen : Bytes := %s\n"
             "def nameBaseGen : Bytes := %s\n"
-            "end BreezyVerif.C19\n") % tuple(ex.lean_bytes(vals[k]) for k in
-                                             ("start_marker", "replacement", "extension", "base_marker", "name_a", "name_b", "name_base"))
+            "%s"
+            "end BreezyVerif.C19\n") % (tuple(ex.lean_bytes(vals[k]) for k in
+                                               ("start_marker", "replacement", "extension", "base_marker", "name_a", "name_b", "name_base"))
+                                         + (sfx_text,))
     ex.write_if_changed(os.path.join(env.VERIF, "lean/BreezyVerif/Generated/C19.lean"), text)
     return "regenerated text_merge constants"
 
@@ -184,7 +263,24 @@ def finish(rng, ls):
     return t
 
 
-def gen_triple(rng, sent_p, binary=False):
+LONG = b"p" * 99 + b"\n"
+
+
+def long_prefix(rng):
+    """1000 bytes of lines, then possibly one more line that just fits / just overflows the 1024-byte window"""
+    extra = rng.choice([b"", b"q" * 19 + b"\n", b"q" * 23 + b"\n", b"q" * 24 + b"\n", b"q" * 99 + b"\n"])
+    return LONG * rng.choice([9, 10, 10, 10]) + extra
+
+
+def gen_triple(rng, sent_p, binary=False, long_p=0.0):
+    if long_p and rng.random() < long_p:
+        # texts longer than the binary-detection window: a NUL behind it does not make the file binary
+        b, t, o = gen_triple(rng, sent_p, binary or rng.random() < 0.6)
+        if rng.random() < 0.7:
+            pb = pt = po = long_prefix(rng)
+        else:
+            pb, pt, po = long_prefix(rng), long_prefix(rng), long_prefix(rng)
+        return pb + b, pt + t, po + o
     crlf = rng.random() < 0.08
     base = gen_lines(rng, sent_p, crlf)
     k = rng.random()
@@ -326,7 +422,54 @@ def oracle_render(out, this_l, show_base):
 
 
 # --------------------------------------------------------------------------
-# running the real code
+# placement: where the file sits in BASE / THIS / OTHER
+
+DIRS = ["", "d1", "d2"]          # index = directory identity handed to the model
+SFX = (".BASE", ".THIS", ".OTHER")
+
+
+def names_for(i):
+    """names entry i may carry; every one has the stem `<letter><i>` up to the first dot, no other entry shares
+    it, and no name is another name of the pool plus a helper suffix (a path-conflict resolution could
+    otherwise rename the file onto its own helper)"""
+    return ["f%d" % i, "g%d" % i, "h%d.c" % i, "k%d.THIS" % i, "m%d.OTHER.txt" % i]
+
+
+def stem_entry(name, n):
+    st = name.split(".")[0]
+    if len(st) >= 2 and st[0] in "fghkm" and st[1:].isdigit() and int(st[1:]) < n:
+        return int(st[1:])
+    return None
+
+
+def three_way(b, o, t):
+    if b == o:
+        return "this"
+    if t != b and t != o:
+        return "conflict"
+    return "this" if t == o else "other"
+
+
+def expected_loc(locs):
+    """name and directory are merged independently; on a conflict OTHER's value is used
+    -> ((dir, name), path_conflict)"""
+    (bd, bn), (td, tn), (od, on) = (locs[0] or (None, None)), locs[1], locs[2]
+    wn, wd = three_way(bn, on, tn), three_way(bd, od, td)
+    return (td if wd == "this" else od, tn if wn == "this" else on), "conflict" in (wn, wd)
+
+
+def fixed_locs(i):
+    return [[0, "f%d" % i]] * 3
+
+
+def side_path(sc, side, loc):
+    """path of a location in the committed tree of `side` ('base'|'this'|'other')"""
+    d = DIRS[loc[0]]
+    dm = sc.get("dirmove")
+    if dm and dm[0] == side and dm[1] == loc[0]:
+        d = dm[2]
+    return (d + "/" if d else "") + loc[1]
+
 
 def read_opt(path):
     try:
@@ -336,23 +479,89 @@ def read_opt(path):
         return None
 
 
-def observe(wt, name):
+def observe_tree(wt, n, dir_ids):
+    """per entry: files {(dir, name): bytes}, content-level records [(kind, dir, name, path)],
+    path-conflict flag, versioned names; plus everything that belongs to no entry"""
     root = wt.basedir
-    rec = None
-    for c in wt.conflicts():
-        if c.path == name:
+    with wt.lock_read():
+        dmap = {"": 0}
+        if dir_ids is None:
+            for i, d in enumerate(DIRS):
+                dmap[d] = i
+        else:
+            for i, did in dir_ids.items():
+                try:
+                    dmap[wt.id2path(did)] = i
+                except Exception:  # noqa
+                    pass
+        ents = [dict(files={}, recs=[], pc=False, ver=[], odd=[]) for _ in range(n)]
+        extra = []
+        for dp, dn, fn in os.walk(root):
+            for x in (".bzr", ".git"):
+                if x in dn:
+                    dn.remove(x)
+            rel = os.path.relpath(dp, root)
+            rel = "" if rel == "." else rel
+            for f in fn:
+                i = stem_entry(f, n)
+                relp = (rel + "/" if rel else "") + f
+                if i is None or rel not in dmap:
+                    extra.append(relp)
+                    continue
+                ents[i]["files"][(dmap[rel], f)] = read_opt(os.path.join(dp, f))
+        # versioned names, including ones whose file the user deleted from disk
+        for vp in wt.all_versioned_paths():
+            d, _, nm = vp.rpartition("/")
+            i = stem_entry(nm, n)
+            if i is not None and d in dmap and vp not in dmap:
+                ents[i]["ver"].append((dmap[d], nm))
+        for c in wt.conflicts():
+            d, _, nm = c.path.rpartition("/")
+            i = stem_entry(nm, n)
             ts = c.typestring
-            rec = {"text conflict": "text", "contents conflict": "contents"}.get(ts, ts.replace(" ", "_"))
+            if i is None or d not in dmap:
+                extra.append("conflict:%s:%s" % (ts, c.path))
+            elif ts == "path conflict":
+                ents[i]["pc"] = True
+            elif ts in ("text conflict", "contents conflict"):
+                ents[i]["recs"].append((ts.split()[0], dmap[d], nm, c.path))
+            else:
+                ents[i]["odd"].append(ts.replace(" ", "_"))
+    for e in ents:
+        e["ver"].sort(); e["recs"].sort()
+    return ents, sorted(extra)
+
+
+def slot_at(ent, loc):
+    """the classical per-file slot, read at location `loc`: file, .BASE, .THIS, .OTHER, record, versioned name"""
+    d, nm = loc
+    rec = None
+    for k, rd, rn, _ in ent["recs"]:
+        if (rd, rn) == (d, nm):
+            rec = k
     idon = "none"
-    for key, n in (("item", name), ("this", name + ".THIS"), ("other", name + ".OTHER"), ("base", name + ".BASE")):
-        if wt.is_versioned(n):
+    for key, x in (("item", nm), ("this", nm + ".THIS"), ("other", nm + ".OTHER"), ("base", nm + ".BASE")):
+        if (d, x) in ent["ver"]:
             idon = key if idon == "none" else idon + "+" + key
-    return [read_opt(os.path.join(root, name)), read_opt(os.path.join(root, name + ".BASE")),
-            read_opt(os.path.join(root, name + ".THIS")), read_opt(os.path.join(root, name + ".OTHER")), rec, idon]
+    g = ent["files"].get
+    return [g((d, nm)), g((d, nm + ".BASE")), g((d, nm + ".THIS")), g((d, nm + ".OTHER")), rec, idon]
 
 
 def slot_str(s):
     return "%s %s %s %s %s %s" % (ob(s[0]), ob(s[1]), ob(s[2]), ob(s[3]), s[4] or "~", s[5])
+
+
+def loc_str(loc):
+    return "%d:%s" % (loc[0], loc[1].encode().hex())
+
+
+def placed_str(ent):
+    """canonical listing of everything an entry has in the tree (the model's `Placed`)"""
+    fs = ",".join("%d:%s:%s" % (d, nm.encode().hex(), hexb(c))
+                  for (d, nm), c in sorted(ent["files"].items(), key=lambda kv: (kv[0][0], kv[0][1].encode()))) or "_"
+    rec = "+".join("%s:%d:%s" % (k, d, nm.encode().hex()) for k, d, nm, _ in ent["recs"]) or "~"
+    ver = "+".join(loc_str(v) for v in ent["ver"]) or "~"
+    return "%s %s %s %s" % (fs, rec, ver, "T" if ent["pc"] else "F")
 
 
 def exc_kind(e):
@@ -361,30 +570,63 @@ def exc_kind(e):
 
 
 def run_scenario(sc):
-    """sc: dict(fmt, reprocess, show_base, cherrypick, via, triples=[(b,t,o)], actions=[(action, pre)])
-    returns dict(merge_exc, slots=[...], resolves=[(pre_slot, action, exc|None, post_slot)|None])"""
+    """sc: dict(fmt, reprocess, show_base, cherrypick, via, triples=[(b,t,o)], actions=[(action, pre)],
+                locs=[[base, this, other] locations (dir index, name)], dirmove=None|[side, dir index, new name])
+    returns dict(merge_exc, ents=[entry observation], resolves=[(before, action, exc|None, after)|None])"""
     from breezy import conflicts as _mod_conflicts
     from breezy.merge import Merge3Merger, Merger
     fmt = sc["fmt"]
     triples = sc["triples"]
-    names = ["f%d" % i for i in range(len(triples))]
+    n = len(triples)
+    locs = sc.get("locs") or [fixed_locs(i) for i in range(n)]
     wt = env.make_tree(fmt)
     root = wt.basedir
 
-    def write(d, idx):
-        for n, t in zip(names, triples):
-            with open(os.path.join(d, n), "wb") as f:
-                f.write(t[idx])
-    write(root, 0)
-    wt.add(names)
+    def write(d, side, idx):
+        for lc, t in zip(locs, triples):
+            if lc[0] is not None:
+                with open(os.path.join(d, side_path(sc, side, lc[0])), "wb") as f:   # still at the BASE path
+                    f.write(t[idx])
+
+    def move(tree, side, idx):
+        for i, (lc, t) in enumerate(zip(locs, triples)):
+            to = lc[1] if side == "this" else lc[2]
+            if lc[0] is None:
+                # added by this side (both sides add it: same file id in bzr, same path in git)
+                p = side_path(sc, "base", to)
+                with open(os.path.join(tree.basedir, p), "wb") as f:
+                    f.write(t[idx])
+                if fmt == "git":
+                    tree.add([p])
+                else:
+                    tree.add([p], ids=[b"added-%d" % i])
+            elif list(to) != list(lc[0]):
+                tree.rename_one(side_path(sc, "base", lc[0]), side_path(sc, "base", to))
+        dm = sc.get("dirmove")
+        if dm and dm[0] == side:
+            tree.rename_one(DIRS[dm[1]], dm[2])
+    for d in DIRS[1:]:
+        os.mkdir(os.path.join(root, d))
+    write(root, "base", 0)
+    base_paths = [side_path(sc, "base", lc[0]) for lc in locs if lc[0] is not None]
+    if fmt == "git":
+        wt.add(base_paths)
+        dir_ids = None
+    else:
+        wt.add(DIRS[1:] + base_paths)
+        dir_ids = {i: wt.path2id(DIRS[i]) for i in (1, 2)}
     base_rev = wt.commit("base")
     odir = env.fresh_dir("other")
     owt = wt.controldir.sprout(odir).open_workingtree()
-    write(odir, 2)
+    for d in DIRS[1:]:
+        os.makedirs(os.path.join(odir, d), exist_ok=True)      # git does not carry empty directories over
+    write(odir, "base", 2)
+    move(owt, "other", 2)
     other_rev = owt.commit("other", allow_pointless=True)
-    write(root, 1)
+    write(root, "base", 1)
+    move(wt, "this", 1)
     wt.commit("this", allow_pointless=True)
-    res = dict(merge_exc=None, slots=[], resolves=[])
+    res = dict(merge_exc=None, resolves=[])
     try:
         if sc["via"] == "merger":
             with wt.lock_write():
@@ -401,37 +643,47 @@ def run_scenario(sc):
                              cherrypick=sc["cherrypick"], do_merge=True)
     except Exception as e:  # noqa
         res["merge_exc"] = exc_kind(e)
-    res["slots"] = [observe(wt, n) for n in names]
+    res["ents"], res["extra_files"] = observe_tree(wt, n, dir_ids)
     # the texts the merge actually saw (the repository's, not the ones written to disk)
     try:
         orepo = wt.branch.repository if (sc["via"] == "merger" and not res["merge_exc"]) else owt.branch.repository
         bt, ot = wt.branch.repository.revision_tree(base_rev), orepo.revision_tree(other_rev)
         with bt.lock_read(), ot.lock_read():
-            res["stored"] = [(bt.get_file_text(n), ot.get_file_text(n)) for n in names]
+            res["stored"] = [(bt.get_file_text(side_path(sc, "base", lc[0])) if lc[0] is not None else b"",
+                              ot.get_file_text(side_path(sc, "other", lc[2]))) for lc in locs]
     except Exception as e:  # noqa
         res["stored"] = None
-    res["extra_files"] = sorted(x for x in os.listdir(root)
-                                if x not in (".bzr", ".git") and x.split(".")[0] not in names)
-    for n, (action, pre), slot in zip(names, sc["actions"], res["slots"]):
-        if slot[4] is None or res["merge_exc"]:
+    # paths OTHER added that the tree comparison reports as copies of another file (git: similarity detection)
+    res["copied"] = []
+    try:
+        orepo = owt.branch.repository
+        bt, ot = orepo.revision_tree(base_rev), orepo.revision_tree(other_rev)
+        with bt.lock_read(), ot.lock_read():
+            res["copied"] = sorted(c.path[1] for c in ot.iter_changes(bt) if getattr(c, "copied", False))
+    except Exception as e:  # noqa
+        pass
+    for i, (action, pre) in enumerate(sc["actions"]):
+        ent = res["ents"][i]
+        if not ent["recs"] or res["merge_exc"]:
             res["resolves"].append(None)
             continue
+        cpath = ent["recs"][0][3]          # resolve by the path the conflict was recorded under
         if pre:
             kind, which = pre
-            p = os.path.join(root, n + "." + which)
+            p = os.path.join(root, cpath + "." + which)
             if kind == "del":
                 if os.path.exists(p):
                     os.unlink(p)
             elif kind == "edit":
                 with open(p, "wb") as f:
                     f.write(b"edited by user\n")
-        before = observe(wt, n)
+        before = observe_tree(wt, n, dir_ids)[0][i]
         exc = None
         try:
-            _mod_conflicts.resolve(wt, [n], action=action)
+            _mod_conflicts.resolve(wt, [cpath], action=action)
         except Exception as e:  # noqa
             exc = exc_kind(e)
-        res["resolves"].append((before, action, exc, observe(wt, n)))
+        res["resolves"].append((before, action, exc, observe_tree(wt, n, dir_ids)[0][i]))
     return res
 
 
@@ -441,15 +693,65 @@ def has_sentinel_line(triple):
     return any(l.startswith(SENT) for t in triple for l in t.split(b"\n"))
 
 
+def is_binary_text(t):
+    """textfile.check_text_lines, re-implemented: whole lines are scanned until one no longer fits into the
+    1024-byte window (that one is still scanned)"""
+    off = 0
+    for l in split_lines(t):
+        if b"\x00" in l:
+            return True
+        if off + len(l) > 1024:
+            return False
+        off += len(l)
+    return False
+
+
 def is_binary(triple):
-    return any(b"\x00" in t for t in triple)
+    return any(is_binary_text(t) for t in triple)
 
 
 def case_of(sc, i):
     b, t, o = sc["triples"][i]
     return dict(fmt=sc["fmt"], reprocess=sc["reprocess"], show_base=sc["show_base"], cherrypick=sc["cherrypick"],
                 via=sc["via"], base=b.hex(), this=t.hex(), other=o.hex(),
-                action=sc["actions"][i][0], pre=sc["actions"][i][1])
+                action=sc["actions"][i][0], pre=sc["actions"][i][1],
+                locs=[None if x is None else list(x) for x in sc["locs"][i]], dirmove=sc.get("dirmove"), index=i)
+
+
+def gen_locs(rng, i, fmt):
+    """(BASE, THIS, OTHER) locations of entry i.  git trees are path based (a rename is delete + add,
+    never a text merge), so there the file keeps its place — but the place varies."""
+    names = names_for(i)
+    def pick():
+        return [rng.choice([0, 0, 1, 1, 2]), rng.choice(names[:3] if rng.random() < 0.85 else names)]
+    def moved(frm):
+        r = rng.random()
+        if r < 0.45:
+            to = [frm[0], rng.choice(names)]
+        elif r < 0.75:
+            to = [rng.choice([0, 1, 2]), frm[1]]
+        else:
+            to = pick()
+        return to
+    base = pick()
+    if rng.random() < 0.07:
+        # added by both sides (not in BASE): same file id in bzr / same path in git
+        if fmt == "git" or rng.random() < 0.6:
+            return [None, base, base]
+        return [None, base, moved(base)]
+    if fmt == "git":
+        return [base, base, base]
+    r = rng.random()
+    if r < 0.40:
+        return [base, base, base]
+    if r < 0.58:
+        return [base, base, moved(base)]                 # only OTHER renames / moves
+    if r < 0.72:
+        return [base, moved(base), base]                 # only THIS
+    if r < 0.80:
+        m = moved(base)
+        return [base, m, m]                              # both, to the same place
+    return [base, moved(base), moved(base)]              # both, independently (often a path conflict)
 
 
 def gen_scenario(ctx, fmt, nfiles, sent_p, bin_p):
@@ -464,10 +766,16 @@ def gen_scenario(ctx, fmt, nfiles, sent_p, bin_p):
         reprocess = show_base = True
     via = "merger" if rng.random() < 0.5 else "direct"
     cherrypick = via == "direct" and rng.random() < 0.4
-    triples, actions = [], []
-    for _ in range(nfiles):
+    triples, actions, locs = [], [], []
+    dirmove = None
+    if fmt == "2a" and rng.random() < 0.2:
+        k = rng.choice([1, 2])
+        dirmove = [rng.choice(["this", "other"]), k, DIRS[k] + "x"]     # one side renames a directory
+    for i in range(nfiles):
+        locs.append(gen_locs(rng, i, fmt))
         binary = fmt == "2a" and rng.random() < bin_p
-        triples.append(gen_triple(rng, sent_p, binary))
+        tr = gen_triple(rng, sent_p, binary, long_p=0.03 if fmt == "2a" else 0.0)
+        triples.append((b"", tr[1], tr[2]) if locs[i][0] is None else tr)
         action = rng.choice(["take_this", "take_other"])
         pre = None
         if rng.random() < 0.1:
@@ -477,7 +785,22 @@ def gen_scenario(ctx, fmt, nfiles, sent_p, bin_p):
                 pre = [kind, which]
         actions.append([action, pre])
     return dict(fmt=fmt, reprocess=reprocess, show_base=show_base, cherrypick=cherrypick, via=via,
-                triples=triples, actions=actions)
+                triples=triples, actions=actions, locs=locs, dirmove=dirmove)
+
+
+def place_kind(locs):
+    if locs[0] is None:
+        return "added-by-both" + ("" if tuple(locs[1]) == tuple(locs[2]) else "-differently")
+    b, t, o = [tuple(x) for x in locs]
+    if t == b and o == b:
+        return "fixed"
+    if t == b:
+        return "other-moved"
+    if o == b:
+        return "this-moved"
+    if t == o:
+        return "both-same"
+    return "both-differ"
 
 
 def evaluate(ctx, sc, res):
@@ -488,6 +811,8 @@ def evaluate(ctx, sc, res):
     both = sc["reprocess"] and sc["show_base"]
     per_file = []
     need_text_merge = False
+    if not sc.get("locs"):
+        sc = dict(sc, locs=[fixed_locs(i) for i in range(len(sc["triples"]))])
     if res.get("stored"):
         # a repository that hands out a text different from the one committed is a defect of
         # another property (C03: fetch/commit fidelity); C19 is evaluated on the texts the merge saw
@@ -504,43 +829,62 @@ def evaluate(ctx, sc, res):
         regs, out = regions_for(bl, tl, ol, sc["reprocess"], sc["cherrypick"])
         if not check_reproduce(bl, tl, ol, regs, sc["cherrypick"]):
             ctx.mismatch(case_of(sc, i), "merge3 regions do not reproduce the inputs", str(regs), tie="assumption:merge3")
-        changed_both = b != o and t != b and t != o
+        absent = sc["locs"][i][0] is None          # added by both sides: BASE is (None, None), never equal to a side
+        changed_both = (t != o) if absent else (b != o and t != b and t != o)
         binary = is_binary((b, t, o))
         if changed_both and not binary:
             need_text_merge = True
         per_file.append((bl, tl, ol, regs, out, changed_both, binary))
+    if sc.get("dirmove"):
+        ctx.count("directory-renamed-by:" + sc["dirmove"][0])
     if res["merge_exc"]:
         # the whole merge failed: only legal reason is reprocess+show_base with at least one text merge
         case = dict(fmt=sc["fmt"], reprocess=sc["reprocess"], show_base=sc["show_base"], via=sc["via"],
-                    triples=[[x.hex() for x in t] for t in sc["triples"]])
+                    triples=[[x.hex() for x in t] for t in sc["triples"]], locs=sc["locs"], dirmove=sc.get("dirmove"))
         ctx.count("merge-raised:" + res["merge_exc"])
         if not (both and need_text_merge and res["merge_exc"] == "E:CantReprocessAndShowBase"):
             ctx.violation(case, "merge raised %s" % res["merge_exc"])
-        for i, slot in enumerate(res["slots"]):
-            exp = [sc["triples"][i][1], None, None, None, None, "item"]
-            if slot != exp:
-                ctx.violation(case_of(sc, i), "failed merge changed the tree: %s" % slot_str(slot))
+        for i, ent in enumerate(res["ents"]):
+            tloc = tuple(sc["locs"][i][1])
+            if ent["files"] != {tloc: sc["triples"][i][1]} or ent["recs"] or ent["pc"] or ent["ver"] != [tloc]:
+                ctx.violation(case_of(sc, i), "failed merge changed the tree: %s" % placed_str(ent))
     elif both and need_text_merge:
         ctx.violation(dict(fmt=sc["fmt"], via=sc["via"]), "reprocess+show_base accepted although a text merge was needed")
     if res["extra_files"]:
-        ctx.violation(dict(fmt=sc["fmt"], files=res["extra_files"]), "unexpected files after merge: %r" % res["extra_files"])
+        ctx.violation(dict(fmt=sc["fmt"], files=res["extra_files"]), "unexpected files / records after merge: %r" % res["extra_files"])
 
     for i, (b, t, o) in enumerate(sc["triples"]):
         bl, tl, ol, regs, out, changed_both, binary = per_file[i]
         case = case_of(sc, i)
-        fam = None          # no known family: every oracle failure is a plain VIOLATION
-        ctx.case([case["fmt"], R, S, sc["cherrypick"], sc["via"], case["base"], case["this"], case["other"], case["action"], case["pre"]],
+        locs = sc["locs"][i]
+        P, pc_exp = expected_loc(locs)
+        absent = locs[0] is None
+        Lb, Lt, Lo = ["~" if x is None else loc_str(x) for x in locs]
+        fam = None          # every oracle failure outside the family below is a plain VIOLATION
+        if sc["fmt"] == "git" and absent and side_path(sc, "other", locs[2]) in (res.get("copied") or []):
+            # finding: a file added by both sides whose OTHER version is reported as a *copy* of another
+            # file is treated as a plain add (THIS slot dropped): THIS's text is overwritten, no conflict
+            fam = "git-added-by-both-other-side-detected-as-copy"
+            ctx.count("family:" + fam)
+        ctx.case([case["fmt"], R, S, sc["cherrypick"], sc["via"], case["base"], case["this"], case["other"], case["action"], case["pre"],
+                  Lb, Lt, Lo],
                  nontrivial=changed_both)
         ctx.count("fmt:" + sc["fmt"]); ctx.count("opts:R%sS%sC%s" % (R, S, "T" if sc["cherrypick"] else "F"))
         ctx.count("via:" + sc["via"]); ctx.count("lines:%d" % max(len(bl), len(tl), len(ol)))
-        ctx.count("relation:" + ("both-changed" if changed_both else "this=other" if t == o else
+        ctx.count("relation:" + ("base-absent:" if absent else "") + ("both-changed" if changed_both else "this=other" if t == o else
                                  "other=base" if b == o else "this=base"))
+        pk = place_kind(locs)
+        ctx.count("place:" + pk + ("+path-conflict" if pc_exp else ""))
+        if changed_both:
+            ctx.count("place-x-content:%s/%s" % (pk, "binary" if binary else "text-merge"))
         if not (t.endswith(b"\n") or not t) or not (o.endswith(b"\n") or not o) or not (b.endswith(b"\n") or not b):
             ctx.count("missing-final-newline")
         if has_sentinel_line((b, t, o)):
             ctx.count("sentinel-line")
         if binary:
             ctx.count("binary")
+        if max(len(b), len(t), len(o)) > 1024:
+            ctx.count("longer-than-binary-window" + (":NUL-behind-window" if not binary and any(b"\x00" in x for x in (b, t, o)) else ""))
         # split_lines correspondence
         for txt, ls in ((b, bl), (t, tl), (o, ol)):
             cases.append(dict(op="split_lines", text=txt.hex())); lines.append("sl %s" % hexb(txt)); outs.append(enc_lines(ls))
@@ -555,24 +899,45 @@ def evaluate(ctx, sc, res):
         lines.append("mk %s %s %s" % (enc_lines(bl), enc_lines(tl), enc_lines(ol)))
         outs.append(mk.hex())
         ctx.count("marker-extensions:%d" % (len(mk) - len(SENT)))
+        margs = "%s %s %s %s" % (enc_lines(bl), enc_lines(tl), enc_lines(ol), enc_regions(out))
         if res["merge_exc"]:
             if both and need_text_merge:
                 # model: this file or an earlier one raises; compare only the files that need a text merge
                 if changed_both and not binary:
-                    cases.append(case); outs.append(res["merge_exc"])
-                    lines.append("mf %s %s %s %s %s %s" % (R, S, enc_lines(bl), enc_lines(tl), enc_lines(ol), enc_regions(out)))
+                    if not absent:
+                        cases.append(case); outs.append(res["merge_exc"])
+                        lines.append("mf %s %s %s" % (R, S, margs))
+                    cases.append(dict(case, op="place")); outs.append(res["merge_exc"])
+                    lines.append("pl %s %s %s %s %s %s" % (R, S, Lb, Lt, Lo, margs))
             continue
-        slot = res["slots"][i]
-        cases.append(case); outs.append(slot_str(slot))
-        lines.append("mf %s %s %s %s %s %s" % (R, S, enc_lines(bl), enc_lines(tl), enc_lines(ol), enc_regions(out)))
+        ent = res["ents"][i]
+        slot = slot_at(ent, P)
+        if not absent:
+            cases.append(case); outs.append(slot_str(slot))
+            lines.append("mf %s %s %s" % (R, S, margs))
+        # the whole entry with its paths: name merge, helper names, record path, path conflict
+        if fam is None:
+            cases.append(dict(case, op="place")); outs.append(placed_str(ent))
+            lines.append("pl %s %s %s %s %s %s" % (R, S, Lb, Lt, Lo, margs))
         # ---- oracle: the property on the real outcome --------------------
         has_conf = changed_both and any(r[0] == "c" for r in out)
         recorded = slot[4] == "text"
         ctx.count("outcome:" + (slot[4] or "clean"))
+        # everything the entry owns must be the file at its final path or one of that path's three helpers
+        allowed = {P} | {(P[0], P[1] + x) for x in SFX}
+        stray = sorted("%s/%s" % (DIRS[d], nm) for (d, nm) in ent["files"] if (d, nm) not in allowed)
+        if stray:
+            ctx.violation(case, "files of the entry away from its final path %s/%s: %r" % (DIRS[P[0]], P[1], stray), family=fam)
+        badrec = [(k, "%s/%s" % (DIRS[d], nm)) for k, d, nm, _ in ent["recs"] if (d, nm) != P]
+        if badrec or len(ent["recs"]) > 1:
+            ctx.violation(case, "conflict recorded under %r, the file is at %s/%s" % (
+                [(k, "%s/%s" % (DIRS[d], nm)) for k, d, nm, _ in ent["recs"]], DIRS[P[0]], P[1]), family=fam)
+        if ent["odd"]:
+            ctx.violation(case, "unexpected conflict kinds %r" % ent["odd"], family=fam)
         if binary and changed_both:
-            ok = slot[4] == "contents" and slot[0] is None and slot[1:4] == [b, t, o]
+            ok = slot[4] == "contents" and slot[0] is None and slot[1:4] == [None if absent else b, t, o]
             if not ok:
-                ctx.violation(case, "binary both-changed: expected contents conflict with exact helpers, got %s" % slot_str(slot))
+                ctx.violation(case, "binary both-changed: expected contents conflict with exact helpers, got %s" % slot_str(slot), family=fam)
         else:
             if recorded != has_conf:
                 ctx.violation(case, "text conflict recorded=%s but merge3 conflict regions=%s (file %r)" % (
@@ -580,15 +945,16 @@ def evaluate(ctx, sc, res):
             if slot[4] not in (None, "text"):
                 ctx.violation(case, "unexpected conflict kind %s" % slot[4], family=fam)
             if not changed_both:
-                expect = t if (b == o or t == o) else o
+                expect = t if (absent or b == o or t == o) else o
             else:
                 expect = oracle_render(out, tl, sc["show_base"])
             if slot[0] != expect:
                 ctx.violation(case, "file content %r, expected %s %r" % (
                     slot[0], "marker rendering" if has_conf else "clean merge", expect), family=fam)
             if recorded:
-                if slot[1:4] != [b, t, o]:
-                    ctx.violation(case, "helper files (BASE,THIS,OTHER)=%r differ from the three texts" % (slot[1:4],), family=fam)
+                if slot[1:4] != [None if absent else b, t, o]:
+                    ctx.violation(case, "helper files (BASE,THIS,OTHER)=%r differ from the three texts%s" % (
+                        slot[1:4], " (no BASE: added by both sides)" if absent else ""), family=fam)
             elif slot[1:4] != [None, None, None]:
                 ctx.violation(case, "helper files present without a conflict: %r" % (slot[1:4],), family=fam)
             if slot[5] != "item":
@@ -597,26 +963,39 @@ def evaluate(ctx, sc, res):
         rs = res["resolves"][i]
         if rs is None:
             continue
-        before, action, exc, after = rs
+        bent, action, exc, aent = rs
+        before, after = slot_at(bent, P), slot_at(aent, P)
         side = "this" if action == "take_this" else "other"
         pre = sc["actions"][i][1]
-        ctx.count("resolve:%s:%s%s" % (before[4], action, (":" + pre[0] + pre[1]) if pre else ""))
-        if before[4] == "text":
+        ctx.count("resolve:%s:%s%s%s" % (before[4], action, (":" + pre[0] + pre[1]) if pre else "",
+                                        "+path-conflict" if bent["pc"] else ""))
+        if bent["pc"]:
+            pass        # the same call also resolves the path conflict and may move the file: not compared
+        elif before[4] == "text":
             cases.append(dict(case, step="resolve")); lines.append("rt %s %s" % (side, slot_str(before)))
             outs.append(exc if exc else slot_str(after))
         elif before[4] == "contents":
             cases.append(dict(case, step="resolve")); lines.append("rc %s %s" % (side, slot_str(before)))
             outs.append(exc if exc else slot_str(after))
+        if not bent["pc"] and len(bent["recs"]) == 1 and len(bent["ver"]) <= 1:
+            # path-keyed resolution of the whole entry (a path conflict on the same entry is resolved by
+            # the same call and may move the file again: that part belongs to another property)
+            cases.append(dict(case, step="resolve", op="place"))
+            lines.append("rp %s %s" % (side, placed_str(bent)))
+            outs.append(exc if exc else placed_str(aent))
+        want = t if side == "this" else o
         if pre is None and exc is None:
-            want = t if side == "this" else o
-            good = [want, None, None, None, None, "item"]
-            if after != good:
-                f2 = fam
-                ctx.violation(dict(case, step="resolve"), "after %s: %s, expected file=%r, no helpers, no record, versioned" % (
-                    action, slot_str(after), want), family=f2)
+            if bent["pc"]:
+                good = (list(aent["files"].values()) == [want] and not aent["recs"] and
+                        aent["ver"] == list(aent["files"].keys()))
+            else:
+                good = aent["files"] == {P: want} and not aent["recs"] and aent["ver"] == [P]
+            if not good:
+                ctx.violation(dict(case, step="resolve"), "after %s: %s, expected exactly the file %s/%s=%r, no helpers, no record, versioned" % (
+                    action, placed_str(aent), DIRS[P[0]], P[1], want), family=fam)
         elif pre is None and exc is not None:
-            ctx.violation(dict(case, step="resolve"), "resolve %s raised %s" % (action, exc), family=fam)
-        elif exc is None:
+            ctx.violation(dict(case, step="resolve"), "resolve %s raised %s (tree: %s)" % (action, exc, placed_str(aent)), family=fam)
+        elif exc is None and not bent["pc"]:
             # user touched a helper: the file must hold whatever p.<WINNER> held, helpers and record gone
             w = before[2] if side == "this" else before[3]
             if before[4] == "text" and (after[0] != w or after[1:5] != [None, None, None, None]):
@@ -629,7 +1008,7 @@ def _run_sc(sc):
 
 
 def run(ctx, scale=1):
-    nsc = ctx.pick(24, 900) * scale
+    nsc = ctx.pick(20, 900) * scale
     nfiles = ctx.pick(14, 16)
     scs = []
     # corpus first: the F3 witness, CRLF first line, bare CR, no trailing newline
@@ -648,6 +1027,36 @@ def run(ctx, scale=1):
         for (r, s) in ((False, False), (False, True), (True, False)):
             scs.append(dict(fmt=fmt, reprocess=r, show_base=s, cherrypick=False, via="merger", triples=tr,
                             actions=[["take_this" if (i + r) % 2 == 0 else "take_other", None] for i in range(len(tr))]))
+    # placement corpus: one conflicting, one clean and one binary triple under every kind of rename / move
+    ptr = [(b"a\nb\nc\n", b"a\nB\nc\n", b"a\nX\nc\n"), (b"a\nb\nc\n", b"A\nb\nc\n", b"a\nb\nC\n"),
+           (b"a\n\x00b\n", b"a\n\x00B\n", b"a\n\x00X\n")]
+    moves = [lambda i: [[1, "f%d" % i], [1, "f%d" % i], [1, "g%d" % i]],          # OTHER renames
+             lambda i: [[1, "f%d" % i], [1, "g%d" % i], [1, "f%d" % i]],          # THIS renames
+             lambda i: [[1, "f%d" % i], [1, "f%d" % i], [2, "f%d" % i]],          # OTHER moves
+             lambda i: [[1, "f%d" % i], [1, "g%d" % i], [2, "f%d" % i]],          # THIS renames, OTHER moves
+             lambda i: [[0, "f%d" % i], [0, "g%d" % i], [0, "h%d.c" % i]],        # both rename differently
+             lambda i: [[0, "f%d" % i], [2, "k%d.THIS" % i], [2, "k%d.THIS" % i]]]  # both the same way
+    ptriples = [tr for tr in ptr for _ in moves]
+    plocs = [mv(i) for i, mv in enumerate(moves * len(ptr))]
+    for k, (r, s_) in enumerate(((False, False), (False, True), (True, False))):
+        scs.append(dict(fmt="2a", reprocess=r, show_base=s_, cherrypick=False, via="merger" if k != 1 else "direct",
+                        triples=ptriples, locs=plocs, dirmove=[None, ["other", 1, "d1x"], ["this", 2, "d2x"]][k],
+                        actions=[["take_this" if (i + k) % 2 == 0 else "take_other", None] for i in range(len(ptriples))]))
+    # added by both sides (BASE absent): conflicting, identical, one side empty, binary against empty
+    atr = [(b"", b"a\nB\nc\n", b"a\nX\nc\n"), (b"", b"a\n", b"a\n"), (b"", b"", b"x\n"), (b"", b"x", b""),
+           (b"", b"\x00B\n", b""), (b"", b"", b"\x00X\n"), (b"", b"\x00B\n", b"\x00X\n"), (b"", b"a\nB\nc\n", b"a\nX\nc\n")]
+    for fmt in ("2a", "git"):
+        tr = [c for c in atr if not (fmt == "git" and is_binary(c))]
+        for k, (r, s_) in enumerate(((False, False), (False, True), (True, False))):
+            lc = [[None, [1, "g%d" % i], [1, "g%d" % i]] for i in range(len(tr))]
+            if fmt == "2a":
+                lc[-1] = [None, [1, "g%d" % (len(tr) - 1)], [2, "h%d.c" % (len(tr) - 1)]]
+            scs.append(dict(fmt=fmt, reprocess=r, show_base=s_, cherrypick=False, via="merger" if k != 2 else "direct",
+                            triples=tr, locs=lc, dirmove=None,
+                            actions=[["take_this" if (i + k) % 2 == 0 else "take_other", None] for i in range(len(tr))]))
+    for sc in scs:
+        sc.setdefault("locs", [fixed_locs(i) for i in range(len(sc["triples"]))])
+        sc.setdefault("dirmove", None)
     for k in range(nsc):
         fmt = "2a" if k % 3 != 2 else "git"
         scs.append(gen_scenario(ctx, fmt, nfiles, sent_p=0.05, bin_p=0.04))
@@ -667,17 +1076,27 @@ def widen(ctx):
 def replay(ctx, case):
     if "base" not in case:
         return dict(note="scenario-level record", case=case)
+    locs = case.get("locs") or fixed_locs(0)
+    i = stem_entry(locs[1][1], 10 ** 6) or 0
+    pad = i        # entry names carry their index: rebuild the scenario with unchanged filler entries in front
+    filler = (b"", b"", b"")
     sc = dict(fmt=case["fmt"], reprocess=case["reprocess"], show_base=case["show_base"],
               cherrypick=case["cherrypick"], via=case["via"],
-              triples=[(bytes.fromhex(case["base"]), bytes.fromhex(case["this"]), bytes.fromhex(case["other"]))],
-              actions=[[case["action"], case["pre"]]])
+              triples=[filler] * pad + [(bytes.fromhex(case["base"]), bytes.fromhex(case["this"]), bytes.fromhex(case["other"]))],
+              actions=[["take_this", None]] * pad + [[case["action"], case["pre"]]],
+              locs=[fixed_locs(j) for j in range(pad)] + [locs], dirmove=case.get("dirmove"))
     res = run_scenario(sc)
     cases, lines, outs = evaluate(ctx, sc, res)
     model = ctx.model(lines)
-    return dict(case=case, texts=[repr(x) for x in sc["triples"][0]],
-                impl=dict(after_merge=slot_str(res["slots"][0]), merge_exc=res["merge_exc"],
-                          file=repr(res["slots"][0][0]),
-                          resolve=None if not res["resolves"] or res["resolves"][0] is None else
-                          dict(exc=res["resolves"][0][2], after=slot_str(res["resolves"][0][3]))),
-                model=[dict(line=l, model=m, impl=o) for l, m, o in zip(lines, model, outs) if l.startswith(("mf", "rt", "rc"))],
+    ent = res["ents"][i]
+    rs = res["resolves"][i] if res["resolves"] else None
+    return dict(case=case, texts=[repr(x) for x in sc["triples"][i]],
+                paths=dict(base=None if locs[0] is None else side_path(sc, "base", locs[0]), this=side_path(sc, "this", locs[1]),
+                           other=side_path(sc, "other", locs[2])),
+                impl=dict(after_merge=placed_str(ent), merge_exc=res["merge_exc"],
+                          files={"%s/%s" % (DIRS[d], nm): repr(c) for (d, nm), c in sorted(ent["files"].items())},
+                          conflicts=[(k, p) for k, _, _, p in ent["recs"]],
+                          resolve=None if rs is None else dict(exc=rs[2], after=placed_str(rs[3]))),
+                model=[dict(line=l, model=m, impl=o) for l, m, o in zip(lines, model, outs)
+                       if l.startswith(("mf", "rt", "rc", "pl", "rp"))][-5:],
                 oracle_failures=[v["what"] for v in ctx.violations])
